@@ -145,6 +145,31 @@ Theorem C07_exhausted : forall decode cfg dest nm pl st,
 Proof. exact exhausted_no_effect. Qed.
 Print Assumptions C07_exhausted.
 
+(* the same for JSON records (files below a root, directories, archive records; NAME message or
+   archive entry header): a record whose path id has no name yet and whose top-level name and all
+   numbered alternatives exist is refused, the state (file system, log, createdFiles, fileNameMap) is
+   exactly what it was - the series is never reused *)
+Theorem C07_exhausted_json : forall decode cfg dest m s r0 rest st,
+  overwrite cfg = false -> msg_src decode cfg m = Some s -> s_rel s = r0 :: rest ->
+  map_get (st_map st) (s_id s) = None ->
+  (forall c, In c (candidates r0) -> stat (st_fs st) (join dest [c]) <> SNotExist) ->
+  step decode code_checks cfg dest m st = (NErr, st).
+Proof. exact exhausted_no_effect_json. Qed.
+Print Assumptions C07_exhausted_json.
+
+(* one gap anywhere in the series: the first gap is the name chosen *)
+Theorem C07_gap_used : forall fs dest nm pre g post, name_len nm <= names_max_len ->
+  candidates nm = pre ++ g :: post -> stat fs (join dest [g]) = SNotExist ->
+  (forall c, In c pre -> stat fs (join dest [c]) <> SNotExist) ->
+  get_new_name fs dest nm = Some g.
+Proof. exact gap_used. Qed.
+Print Assumptions C07_gap_used.
+
+(* the shape of getNewName the model transcribes is what the translator found in the source *)
+Theorem C07_getnewname_pins : names_getnewname_loop_ok = true /\ names_getnewname_shape_ok = true.
+Proof. exact (conj names_getnewname_loop_src_ok names_getnewname_src_ok). Qed.
+Print Assumptions C07_getnewname_pins.
+
 (* the chosen name is the first absent one of name, name.0, name.1, ... (and the name is at
    most names_max_len bytes long) *)
 Theorem C07_fresh_shape : forall fs dest nm ln, get_new_name fs dest nm = Some ln <->
